@@ -140,6 +140,10 @@ def run(ctx):
         for r in res: ctx.add_result(r)
         ctx.functions.update(funcs)
     structs.adz_apply_obligations(ctx, 'C03')
+    # the step loop: Rule.target / Tableau.next return a target whenever some rule has one, for both values of every option
+    from checks import selection
+    selection.rule_target_obligations(ctx, 'C03')
+    selection.next_obligations(ctx, 'C03')
     # rule exactness and shape coverage for the operator fragment (from C04's generator)
     from checks import c04
     for res, funcs in pmap(_operator_exactness, names):
